@@ -88,7 +88,12 @@ class PyExec:
             return
         op = t[0]
         o = self.out
-        if op == 'ecu.new':
+        if op.startswith('m14.'):
+            if not hasattr(self, 'm14'):
+                from .pyexec14 import M14
+                self.m14 = M14(self)
+            self.m14.step(t)
+        elif op == 'ecu.new':
             self.w.new_stack()
         elif op == 'adv':
             self.w.adv(int(t[1]))
